@@ -150,3 +150,133 @@ PROPS["C15"] = {
     "trusted_base": ["iterFuel 64 stands for the loop bounded by MAX_ITERATIONS = 32"],
     "assumptions": ["exact arithmetic in the theorems; n as f64 is exact (n < 2^53)"],
 }
+
+PROPS["C13"] = {
+    "title": "Intersection pruning never discards a parameter range that can hold a hit",
+    "gen_modules": ["Consts", "Basis", "Lines", "FatLine"],
+    "corr_n": (20000, 200000),
+    "search_n": (20000, 400000),
+    "technique": "Lean 4 theorems (strip containment, convex-hull cover, clip_t soundness, clip) about FatLine / clip_t / clip translated WHOLE from fat_line.rs and curve_curve_clip.rs on every run + bit-exact Float mirror through hook H1",
+    "level_text": "For all control points over any ordered field and ANY normalisation factor: the fat line built from a curve (chord branch) contains every point of the curve (3/4 and 4/9 bounds, affine "
+                  "invariance of the signed distance); the coincident-end-point branch and the perpendicular strip contain it up to an explicit slack (<= 1e-7); the distance curve is the graph of the "
+                  "distance over the parameter; the vertex list of distance_curve_convex_hull spans the convex hull of the four points (hull_covers); clip_t_sound: no parameter whose point lies in the strip "
+                  "is left outside the returned range beyond the 1e-5 snapping window of round_y_value, and None is returned only if no point of the curve is in the strip; clip returns one of the two "
+                  "clip_t ranges, only ever widened, and None only if a clip_t did; clip_keeps_intersections: an actual intersection is never pruned. All about definitions regenerated from the Rust source; "
+                  "their Float instances reproduce FatLine::from_curve, from_curve_perpendicular and clip_t bit for bit (hook H1).",
+    "level_note": "Exact arithmetic (binary64 rounding bounded by the bit-exact mirror only); sqrt is an arbitrary function in the theorems; the f64::MAX/MIN sentinels are arbitrary values. "
+                  "Finding recorded: for coincident end points from_curve_perpendicular measures a substituted end point, so the strip can miss the real end point by up to 1e-7 "
+                  "(perp_strip_near_counterexample) - inside the property's 1e-9-of-size tolerance for 100-unit curves. " + COMMON_NOTE,
+    "rule": "pairs of curves (random / grid, coincident ends, control points on the base line, opposite sides, symmetric same side, degenerate control points) and sections of them down to 1e-6 in "
+            "parameter length. corr: d_min/d_max/coefficients of both fat lines and both clip_t results vs the Float mirror. search: the property's own test on the real code through H1 on a 1/1000 grid "
+            "(strip contains its curve; no in-strip parameter outside the clip range +-1e-5; None only if nothing in the strip). Non-trivial: non-degenerate control points; distinct by input.",
+    "trusted_base": ["hook H1 (read accessors of the private FatLine)"],
+    "assumptions": ["exact arithmetic in the theorems"],
+}
+
+PROPS["C01"] = {
+    "title": "Binary path arithmetic computes the point-set operation",
+    "gen_modules": ["PathArith"],
+    "corr_n": (300, 4000),
+    "search_n": (400, 8000),
+    "extended_factor": 2,
+    "technique": "Lean 4 theorems about the inside-predicates and operation layers translated from arithmetic/*.rs, and about a model of the ray-cast classification loop that replays the implementation's own "
+                 "event trace (hook H2) + independent winding-number oracle on the real code",
+    "level_text": "Partial. Proved for every pair of crossing counts and every ray: the generated predicates of path_add / path_sub / path_intersect are union / difference / intersection under the even-odd rule "
+                  "(pred_spec, pred_zero, pred_symmetric, bitand_one for negative counts too); the generated operation layers implement the empty-operand laws A+0=A, 0+B=B, A-0=A, 0-B=0, A&0=0 and reach "
+                  "the graph algorithm otherwise (empty_operand_laws, nonempty_operands); in the model of set_edge_kinds_by_ray_casting the number of groups across which the predicate flips along a ray "
+                  "is odd exactly when the ray ends inside (membership_telescopes, inside_iff_odd_flips), a group marks at most one edge exterior and exactly one iff the predicate flips across it "
+                  "(group_exterior_count), every settable edge gets exactly one kind (group_events_cover), counters move by the side of each crossing (bump_spec). The model is tied to the code by replaying, "
+                  "for every ray the implementation casts, the crossing list it saw and comparing every edge kind it set (hook H2): exact, event by event. "
+                  "NOT proved: that the crossings handed to the loop are the true crossings of the ray with the two boundaries (graph collision, ray casting: floating-point geometry) and that the "
+                  "exterior edges are then assembled into closed paths; these are covered by the search oracle only (probe-point membership against a winding-number count on flattened inputs).",
+    "level_note": "Known findings on the unchanged tree (known_findings.json): tangent / coincident / vertex-near-boundary configurations where the collision stage mis-detects crossings, and a sort comparator "
+                  "that is not a total order (panic). " + COMMON_NOTE,
+    "rule": "corr: every operation (add, sub, intersect) on random pairs of shapes (circles, rectangles, blobs, stars, rings with holes, multi-sub-path, reversed/rotated variants); the trace of every ray cast "
+            "(crossings in order with edge label, side, kind before) is replayed by the Lean model and every set-kind event compared. search: ~600 probe points per case classified by an independent "
+            "winding count on a 1/256 flattening, probes within 1e-3*size of a boundary skipped; identities (operand order, empty operands, self). Non-trivial: boundaries cross; distinct by input.",
+    "trusted_base": ["hook H2 (trace sink in set_edge_kinds_by_ray_casting)", "hand model Model/RayCast.lean of the classification loop (tied by the trace replay)",
+                     "search oracle: winding number of a 1/256 flattening"],
+    "assumptions": ["the crossing list of each ray is taken from the implementation (graph collision and ray casting are not modelled)"],
+}
+
+PROPS["C11"] = {
+    "title": "Derived path operations equal compositions of the primitives",
+    "gen_modules": ["PathArith"],
+    "props_modules": ["C01", "C11"],
+    "corr_n": (300, 4000),
+    "search_n": (300, 6000),
+    "extended_factor": 2,
+    "technique": "Lean 4 theorems: denotation of path_combine expression trees by structural induction over a contract for the primitives; translated predicates of cut / full_intersect / chain; "
+                 "trace replay of every classification pass (hook H2) + winding-number oracle on the real code",
+    "level_text": "Partial. combine_denotes / combineList_denotes: for EVERY expression tree (any depth, any nesting of Add/Subtract/Intersect/RemoveInterior/Path), membership of a probe in path_combine's result "
+                  "is the set-algebra denotation of the tree, given the membership contract of the primitives (C01, C12). cut_predicates: the two passes of path_cut / path_full_intersect use exactly the "
+                  "intersect and subtract predicates, so their parts are A&B, A-B (and B-A); chain_spec: path_add_chain's predicate is 'some operand odd' = n-ary union for any number of operands. "
+                  "Everything C01 proves about the classification loop applies to each pass; the model is tied by replaying the H2 trace of every pass. NOT proved: the contract itself "
+                  "(geometry: C01's gap), and that cut's two passes partition the edges (checked by the search: interior+exterior == originals by membership).",
+    "level_note": "Known findings (known_findings.json): C01's tangent/coincident classes seen through the derived operations, one add_chain class with 5-6 touching operands. " + COMMON_NOTE,
+    "rule": "corr: path_cut, path_full_intersect, path_add_chain (2..6 operands) and path_combine trees on random shapes; all classification passes replayed from the H2 trace. search: probe membership of each "
+            "derived result against the composition of the independent winding oracle; cut's parts against intersect/sub. Non-trivial: boundaries cross; distinct by input.",
+    "trusted_base": ["hook H2", "hand model Model/RayCast.lean (tied by trace replay)", "search oracle: winding number of a 1/256 flattening"],
+    "assumptions": ["the primitives' membership contract is a hypothesis of combine_denotes (it is C01/C12's statement)"],
+}
+
+PROPS["C12"] = {
+    "title": "Interior removal yields the non-zero-winding silhouette",
+    "gen_modules": ["PathArith"],
+    "props_modules": ["C01", "C12"],
+    "corr_n": (300, 4000),
+    "search_n": (400, 8000),
+    "extended_factor": 2,
+    "technique": "Lean 4 theorems about the translated remove-interior / remove-overlapped predicates and the classification-loop model (signed crossing sums, odd-flip rule) + H2 trace replay + winding oracle",
+    "level_text": "Partial. single_label_predicates: with one label the generated predicate of path_remove_interior_points is 'count != 0' and that of path_remove_overlapped_points is 'count odd'; "
+                  "counter_is_signed_sum: the counter the loop keeps for a label is the signed number of crossings of that label, for every crossing list; remove_interior_rule / remove_overlapped_rule: along every ray "
+                  "starting outside, the number of exterior-marked groups is odd exactly when the ray ends at a point of non-zero (resp. odd) count. Model tied by H2 trace replay of every ray. "
+                  "NOT proved: crossing detection for self-intersecting input (graph self-collision) and path assembly: search oracle only.",
+    "level_note": "The oracle counts winding after normalising each sub-path's direction, as the library does (it re-orients sub-paths before merging, so a hole drawn in the opposite direction is not "
+                  "'subtracted'): this is the reading under which the statement's gloss 'outer silhouette' holds; see DESIGN.md. " + COMMON_NOTE,
+    "rule": "corr: remove_interior_points / remove_overlapped_points on self-intersecting stars {n/k}, bow-ties, overlapping sub-path sets, rings; every ray replayed. search: probe membership against the "
+            "non-zero (resp. even-odd) winding of the flattened input; idempotence by membership. Non-trivial: the input self-overlaps; distinct by input.",
+    "trusted_base": ["hook H2", "hand model Model/RayCast.lean (tied by trace replay)", "search oracle: winding number of a 1/256 flattening"],
+    "assumptions": ["the crossing list of each ray is taken from the implementation"],
+}
+
+PROPS["C08"] = {
+    "title": "Curve fitting returns a connected chain within the error bound",
+    "gen_modules": ["Basis", "Fit"],
+    "corr_n": (3000, 60000),
+    "search_n": (300, 6000),
+    "technique": "Lean 4 theorems about fit_curve's block loop, max_points_to_fit, fit_line and newton_raphson_root_find translated from fit.rs on every run, and about a recursion skeleton of fit_curve_cubic "
+                 "+ exact correspondence of the block structure + search on the real code",
+    "level_text": "Partial. For every number of points: fit_curve returns None exactly for fewer than 2 points (fit_curve_none_iff); the block size is in [50,200] (max_points_to_fit_range/_spec, the loop's fuel "
+                  "is never exhausted); fit_curve is the concatenation of the fits of its blocks (fit_curve_blocks); the blocks start at point 0, each starts at the last point of the previous one, "
+                  "the last ends at the last point (blocks_cover, fit_curve_blocks_cover - the invariant whose violation was defect F3); hence fit_curve returns a connected chain from the first to the last "
+                  "point whenever the per-block fitter does (fit_curve_chain), and the recursion skeleton of fit_curve_cubic (accept / split at the worst point / line for 2 points) does so for every "
+                  "accept-and-split policy (fitCubic_chain, fit_curve_fitCubic_chain); fit_line interpolates its end points; newton_raphson_root_find returns a parameter in [0,1] and keeps exact hits fixed "
+                  "(newton_in_unit, newton_fixed_at_hit_*: repair F10). NOT proved: that an accepted candidate is within max_error of every sample (generate_bezier's least squares, max_error_for_curve): "
+                  "checked on the real code by the search (every sample within max_error of the chain by dense sampling + refinement; chain connected bit-exactly; ends exact).",
+    "level_note": "fit_curve_cubic's numeric kernel (generate_bezier, chord_length_parameterize, reparameterize) is modelled only as an arbitrary accept/split policy. " + COMMON_NOTE,
+    "rule": "corr: number of points 0..5000 (all small n, random large n): (start, length) of every block the implementation fits (observed through the joints of the returned chain for a fitter-independent "
+            "polyline input) vs the generated loop. search: sample sets from lines, arcs, noisy curves, duplicates, collinear runs, 2..2000 points, max_error 0.01..10: chain connectivity, end points, "
+            "sample distance. Non-trivial: more than one curve returned; distinct by input.",
+    "trusted_base": ["Model/Fit.lean: recursion skeleton of fit_curve_cubic (accept/split policy abstract)"],
+    "assumptions": ["max_error > 0 and finite points (fit_curve panics for negative/NaN max_error on exactly fitted 3 points; NaN points give NaN curves)"],
+}
+
+PROPS["C09"] = {
+    "title": "Nearest-point queries return the global minimum",
+    "gen_modules": ["Basis", "Nearest"],
+    "corr_n": (0, 0),
+    "search_n": (4000, 80000),
+    "technique": "Lean 4 theorems about nearest_point_on_curve_bezier_root_finder translated from the Rust source on every run (selection among candidates) + brute-force oracle on the real code",
+    "level_text": "Partial. nearest_unfold / nearest_is_argmin: for every curve, query point and WHATEVER distance_in_bezier_form and find_bezier_roots return, the generated function returns 0, 1 or a returned root "
+                  "strictly inside (0,1) - hence a parameter in [0,1] - whose squared distance is minimal among {0, 1} and all returned interior roots (pick_spec, by induction over the candidate list); "
+                  "Z_table: the generated coefficient table is the exact C(3,i)C(2,j)/C(5,i+j) table. "
+                  "NOT proved: completeness of find_bezier_roots (every interior critical point is returned, to tolerance) - the recursion's flatness / crossing heuristics - which is what global optimality "
+                  "needs; it is decided on the real code by the search against a brute-force minimum (1/4000 parameter grid + golden-section refinement) for every generated curve/point class.",
+    "level_note": "nearest_point, distance_to and path_closest_point consistency are checked on the real code by the search only. " + COMMON_NOTE,
+    "rule": "search: curves in a 100-unit box (arches, S-curves, loops, cusps, near-lines, points, coincident control points, closed) x query points (inside/outside hull, far away, on the curve, on the "
+            "medial axis of two branches, at end points); nearest_t within [0,1] and within 0.01 of the brute-force minimum distance; nearest_point/distance_to consistency; path_closest_point "
+            "against the per-curve minimum. Non-trivial: minimum not at an end point; distinct by input.",
+    "trusted_base": ["search oracle: 1/4000-grid brute force with golden-section refinement on an evaluation independent of the library"],
+    "assumptions": ["find_bezier_roots and distance_in_bezier_form are parameters of the theorems (not modelled)"],
+}
